@@ -208,3 +208,49 @@ PROPS["C14"] = W([PLAN_TETRI_G, PLAN_TETRI_C, PLAN_ILP_GOODPUT], 600, 20000,
                  "(<=4 offered tasks, <=2 workers) so that the reference planner had to search",
                  lambda r: r["probes"].get("c14_maximality_checked", 0) + r["probes"].get("c14_goodput_checked", 0) > 0,
                  real=_PLAN_REAL, stub=_PLAN_STUB[:1], per_run_timeout=120)
+
+CW = {"profile": "clockwork", "opts": {}}
+PROPS["C15"] = W([CW], 1200, 40000,
+                 FP_RULE % "Clockwork placed at least one batch",
+                 lambda r: r["probes"].get("c15_batch_checked", 0) > 0,
+                 real=["schedulers.ClockworkScheduler (unmodified), models loaded through Worker.load_profile or "
+                       "by the policy itself (scheduler_run_load)"], stub=[])
+
+# ------------------------------------------------------------------ widen the run profiles of the core checks
+PROPS["C01"]["streams"] = [G, G, CH, G_TIES, PLAN, CW]
+PROPS["C02"]["streams"] = [G, CH, G_COND, CH_COND, PLAN]
+PROPS["C03"]["streams"] = [G_TIES, G, CH, G_TIES, PLAN, CW]
+PROPS["C05"]["streams"] = [G, G_TIES, G_ENF, G_COND, PLAN, CW]
+PROPS["C06"]["streams"] = [G_ENF, CH, G_COND, CH_COND, PLAN]
+PROPS["C08"]["streams"] = [G, G_ENF, G_COND, CH, PLAN, CW]
+PROPS["C10"]["streams"] = [G, PLAN, G_ENF, PLAN, CH, CW]
+PROPS["C12"]["streams"] = [G_ENF, PLAN_ENF, PLAN_ENF, PLAN_ENF, CW]
+PROPS["C18"]["streams"] = [G, CH, G_COND, CH_COND, PLAN]
+for _p in ("C01", "C02", "C03", "C05", "C06", "C08", "C18"):
+    PROPS[_p].setdefault("real", _PLAN_REAL)
+    PROPS[_p].setdefault("stub", _PLAN_STUB)
+    PROPS[_p]["per_run_timeout"] = 120
+
+from . import cli19  # noqa: E402
+
+PROPS["C19"] = {
+    "streams": [{"kind": "cli19", "profile": "loader"}] * 3 + [
+        {"profile": "greedy", "opts": {"p_batch_loader": 0, "release_kinds": ["closed_loop", "closed_loop", "fixed"],
+                                       "p_enforce": 0.6, "p_drop": 0.4}},
+        {"profile": "chaos", "opts": {"p_batch_loader": 0, "release_kinds": ["closed_loop", "closed_loop", "fixed"]}}],
+    "runs": {"quick": 2500, "thorough": 100000},
+    "rule": "3/5 of the cases: a generated world spec is rendered as YAML or JSON (graphs with conditionals, per-node "
+            "SLOs, typed / any / id-specific resources, all release policies, deadline variance, override flags, "
+            "replication factor), loaded by the real WorkloadLoader / WorkerLoader and compared with the spec "
+            "(structure, releases per policy, fresh isomorphic copies, deadline base x variance); 2/5: simulated "
+            "runs with closed-loop graphs under cancelling policies where the in-flight bound and the total N are "
+            "checked at every event boundary; non-trivial = at least one graph loaded / one task started; distinct = "
+            "distinct (format, flags, overrides, per-graph release kind x size x shape x SLOs, cluster shape, probes)",
+    "run": any_run, "case": any_case, "run_case": any_run_case, "shrink": any_shrink,
+    "nontrivial": lambda r: r["stats"].get("started", 0) > 0,
+    "real": ["data.WorkloadLoader / data.WorkerLoader reading real YAML/JSON files from a scratch directory",
+             "workload.JobGraph.ReleasePolicy / generate_task_graphs"],
+    "stub": ["numpy default_rng seeded through the workload.jobs.np seam (arrival draws)"],
+}
+_MODS["cli19"] = type("M", (), {"run": staticmethod(cli19.run), "case": staticmethod(cli19.case),
+                                "run_case": staticmethod(cli19.run_case_), "shrink_ops": staticmethod(cli19.shrink_case)})
